@@ -32,6 +32,23 @@ def cases(tier, rng, schema, feats):
         payloads += [rng.bytes(1 + rng.below(64)) for _ in range(n)]
         for k, p in enumerate(payloads):
             out.append(f"C11.dec.{b}.{k}\tdec2\t{bytes([b]).hex()}{p.hex()}")
+    # 0x41 decodes exactly like 0x0A: every sub-command, with and without parameters / PIN members
+    if "ctap2::credential_management::Request" in schema:
+        from .. import gen as _gen
+        g = _gen.Gen(schema, rng, tier)
+        t = "ctap2::credential_management::Request"
+        sub = schema.get("ctap2::credential_management::Subcommand", {"variants": []})["variants"]
+        k = 0
+        for _, z in sub:
+            for present in ("all", "none", None):
+                tree = g.named_wire(t, present=present)
+                tree = cbor.M([(kk, (z if kk == 1 else vv)) for kk, vv in tree.pairs])
+                for b in (0x0A, 0x41):
+                    out.append(f"C11.cm.{b}.{k}\tdec2\t{bytes([b]).hex()}{cbor.enc(tree).hex()}")
+                k += 1
+            for b in (0x0A, 0x41):
+                out.append(f"C11.cm.{b}.{k}\tdec2\t{bytes([b]).hex()}{cbor.enc(cbor.M([(1, z)])).hex()}")
+            k += 1
     # "whatever bytes follow": long trailing payloads, up to and beyond the maximum message size
     for b in (0x04, 0x07, 0x08, 0x0B, 0x42, 0x7F, 0x09, 0x0D, 0x40, 0x00, 0x03, 0x0E, 0xFF):
         for L in (7607, 7608, 7609, 7610, 12000):
